@@ -31,6 +31,7 @@ func checkC18(c *Ctx) {
 		ruleStateless(c, "R6.keys-stateless", c.Prog.SSAFunc("applayer/multicastsetup", fn))
 	}
 	c18EncoderTotal(c)
+	c18Sequences(c)
 	c18StreamConvention(c)
 }
 
